@@ -43,6 +43,169 @@ def align(ref, act):
     return m
 
 
+FREF = os.path.join(os.path.dirname(REF), 'fn_sigs.json')
+TREF = os.path.join(os.path.dirname(REF), 'adt_shapes.json')
+
+
+def adt_shapes(data):
+    """{adt path: shape} where shape = variants with field names and types, the type's own path written Self"""
+    out = {}
+    for a in data.get('adts', []):
+        p = a['path']
+        if '::_::' in p or '{' in p:
+            continue
+        out[p] = [[v['name'], [[f['name'], _norm_ty(f['ty']).replace(p, 'Self')] for f in v['fields']]] for v in a['variants']]
+    return out
+
+
+def align_types(ref, act):
+    """{actual path: reference path} for private types that were merely renamed (same module, same shape up to the variant name
+    of a struct, which repeats the type name)"""
+    def key(path, shape):
+        mod = path.rsplit('::', 1)[0]
+        if len(shape) == 1:
+            return json.dumps([mod, 'struct', shape[0][1]])
+        return json.dumps([mod, 'enum', shape])
+    missing = {p: sh for p, sh in ref.items() if p not in act}
+    fresh = {p: sh for p, sh in act.items() if p not in ref}
+    m = {}
+    groups = {}
+    for p, sh in missing.items():
+        groups.setdefault(key(p, sh), [[], []])[0].append(p)
+    for p, sh in fresh.items():
+        groups.setdefault(key(p, sh), [[], []])[1].append(p)
+    for k, (rs, as_) in groups.items():
+        if len(rs) == 1 and len(as_) == 1:
+            m[as_[0]] = rs[0]
+    return m
+
+
+def apply_type_aliases(data, role):
+    try:
+        ref = json.load(open(TREF)).get(role, {})
+    except (OSError, ValueError):
+        return {}
+    m = align_types(ref, adt_shapes(data))
+    if not m:
+        return {}
+    pats = [(re.compile(r'(?<![\w])' + re.escape(a) + r'(?![\w])'), r) for a, r in sorted(m.items(), key=lambda x: -len(x[0]))]
+    names = {a.rsplit('::', 1)[1]: r.rsplit('::', 1)[1] for a, r in m.items()}
+
+    def ren(sv):
+        for pat, r in pats:
+            if pat.pattern and pat.search(sv):
+                sv = pat.sub(r, sv)
+        return sv
+
+    def walk(x):
+        if isinstance(x, dict):
+            for k, v in list(x.items()):
+                if isinstance(v, str):
+                    nv = ren(v)
+                    # the single variant of a struct carries the struct's own name
+                    if k in ('variant', 'name') and v in names and ('adt' in x or 'fields' in x):
+                        nv = names[v]
+                    x[k] = nv
+                else:
+                    walk(v)
+        elif isinstance(x, list):
+            for i, v in enumerate(x):
+                if isinstance(v, str):
+                    x[i] = ren(v)
+                else:
+                    walk(v)
+    for k in ('fns', 'adts', 'impls', 'statics', 'consts', 'unsafe'):
+        walk(data.get(k, []))
+    return m
+
+
+
+def fn_inventory(data):
+    """[{path, parent, sig, line}] of the user-written functions and methods of a crate (closures and expansions excluded)"""
+    out = []
+    for f in data.get('fns', []):
+        if f.get('def_kind') not in ('Fn', 'AssocFn') or f.get('from_expansion') or '{closure' in f['path']:
+            continue
+        n = f.get('arg_count', 0)
+        tys = [_norm_ty(l['ty']) for l in f['locals'][:n + 1]]
+        sp = f.get('span') or ''
+        try:
+            line = int(sp.rsplit(':', 1)[1])
+        except (IndexError, ValueError):
+            line = 0
+        imp = f.get('impl') or {}
+        parent = f['path'].rsplit('::', 1)[0]
+        out.append({'path': f['path'], 'parent': parent, 'trait': imp.get('trait_path'), 'sig': [tys[1:], tys[0] if tys else ''], 'line': line,
+                    'file': sp.rsplit(':', 1)[0]})
+    return out
+
+
+def align_fns(ref, act):
+    """{actual path: reference path} for functions that were merely renamed (or moved within their module)"""
+    rp = {r['path'] for r in ref}
+    ap = {a['path'] for a in act}
+    missing = [r for r in ref if r['path'] not in ap and not r.get('trait')]
+    fresh = [a for a in act if a['path'] not in rp and not a.get('trait')]
+    m = {}
+
+    def tier(keyf, unique_only):
+        groups = {}
+        for r in missing:
+            if r['path'] in m.values():
+                continue
+            groups.setdefault(json.dumps(keyf(r)), [[], []])[0].append(r)
+        for a in fresh:
+            if a['path'] in m:
+                continue
+            groups.setdefault(json.dumps(keyf(a)), [[], []])[1].append(a)
+        for k, (rs, as_) in groups.items():
+            if not rs or len(rs) != len(as_) or (unique_only and len(rs) != 1):
+                continue
+            rs.sort(key=lambda x: x['line'])
+            as_.sort(key=lambda x: x['line'])
+            for r, a in zip(rs, as_):
+                m[a['path']] = r['path']
+    tier(lambda x: (x['parent'], x['sig']), False)          # renamed in place
+    tier(lambda x: (x['file'], x['sig']), True)             # moved between impl blocks / to a free function of the same file
+    return m
+
+
+def apply_fn_aliases(data, role):
+    try:
+        ref = json.load(open(FREF)).get(role, [])
+    except (OSError, ValueError):
+        return {}
+    m = align_fns(ref, fn_inventory(data))
+    if not m:
+        return {}
+    olds = sorted(m, key=len, reverse=True)
+
+    def ren(s):
+        for o in olds:
+            if s == o:
+                return m[o]
+            if s.startswith(o) and s[len(o):len(o) + 3] == '::{':
+                return m[o] + s[len(o):]
+        return s
+
+    def walk(x):
+        if isinstance(x, dict):
+            for k, v in list(x.items()):
+                if isinstance(v, str):
+                    if k in ('path', 'resolved', 'fn', 'closure', 'item'):
+                        x[k] = ren(v)
+                else:
+                    walk(v)
+        elif isinstance(x, list):
+            for i, v in enumerate(x):
+                if isinstance(v, str):
+                    pass
+                else:
+                    walk(v)
+    walk(data.get('fns', []))
+    return m
+
+
 def apply(data, role):
     """rewrite the facts of one crate in place; returns {struct: {actual: reference}}"""
     try:
@@ -98,3 +261,18 @@ if __name__ == '__main__':
             out[role] = inventory(json.load(open(f)))
     json.dump(out, open(REF, 'w'), indent=1, sort_keys=True)
     print('wrote', REF, {k: len(v) for k, v in out.items()})
+    fo = {}
+    for f in sorted(glob.glob(os.path.join(d, '*.json'))):
+        b = os.path.basename(f)
+        role = 'lib' if b.startswith('fst-Rlib') else 'bin' if b.startswith('fst-Executable') else None
+        if role:
+            fo[role] = fn_inventory(json.load(open(f)))
+    json.dump(fo, open(FREF, 'w'), indent=0, sort_keys=True)
+    to = {}
+    for f in sorted(glob.glob(os.path.join(d, '*.json'))):
+        b = os.path.basename(f)
+        role = 'lib' if b.startswith('fst-Rlib') else 'bin' if b.startswith('fst-Executable') else None
+        if role:
+            to[role] = adt_shapes(json.load(open(f)))
+    json.dump(to, open(TREF, 'w'), indent=0, sort_keys=True)
+    print('wrote', FREF, {k: len(v) for k, v in fo.items()})
